@@ -41,7 +41,7 @@ var c17Alphabet = []string{
 	"@", "#", "$", "~", "^", "?", "\\", "`", "//", "/*", "*/", "/* c */",
 }
 
-var c17Chars = []string{`"`, `'`, `\`, "@", "#", "$", "~", "\x00", "7", "a", "\n", " ", "(", "}", ";", "\xff"}
+var c17Chars = []string{`"`, `'`, `\`, "@", "#", "$", "~", "\x00", "7", "a", "\n", " ", "(", "}", ";", "\xff", "\r", "\t", "\f", "\v", "\u00a0", "\ufeff", "\u2028"}
 
 type c17Mutant struct {
 	text  string
